@@ -7,7 +7,11 @@
 #    POLLING->SLEEPING transition with re-arming of the timer; "started earlier" = its PollBegin precedes the
 #    completion of the wake;
 #  * the state file may say SLEEPING while the manager is POLLING (equivalent by design); before the first transition
-#    there is no file.
+#    there is no file; while a Sleep / Wake call is still inside its callback the transition is not completed yet.
+#  * a restart (new manager + LoadState) is not a transition: it must reproduce the persisted state, and every later
+#    completed transition must be persisted as well.
+#  * agent level: "disconnects" = Agent.doPoll ending its poll window with DisconnectAll / closing its listeners while
+#    the sleep state is AWAKE (a wake completed during the window, by whatever path).
 # Findings protocol: a replay mismatch is looked up in the transition relation TLC emits for each single-deviation
 # variant of the model.  The class listed as `known` in known_findings.d/C30.json (OnPoll invoked after a completed
 # wake, key SleepFSM:DevPollCallbackAfterWake:sleep.Manager.Poll) prints KNOWN-FINDING; because replay stops a path at
